@@ -4,6 +4,7 @@ package main
 
 import (
 	"bufio"
+	"bytes"
 	"encoding/base64"
 	"encoding/json"
 	"fmt"
@@ -11,6 +12,7 @@ import (
 	"os"
 	"sort"
 	"strings"
+	"sync"
 	"time"
 
 	"github.com/aml-org/amf-custom-validator/pkg"
@@ -214,6 +216,9 @@ func runImpl(in io.Reader, out io.Writer) {
 	sc.Buffer(make([]byte, 1<<20), 1<<28)
 	w := bufio.NewWriter(out)
 	defer w.Flush()
+	// the line protocol owns the real stdout (`out`); whatever the LIBRARY prints through os.Stdout / os.Stderr is captured and
+	// attached to the case during which it appeared (a library has no business writing to its host's standard streams)
+	noise := captureStd()
 	nLines := 0
 	for sc.Scan() {
 		line := sc.Bytes()
@@ -243,12 +248,58 @@ func runImpl(in io.Reader, out io.Writer) {
 			res = map[string]any{"outcome": "badop"}
 		}
 		res["id"] = h.Id
+		if so, se := noise(); so != "" || se != "" {
+			res["libStdout"], res["libStderr"] = so, se
+		}
 		b, _ := json.Marshal(res)
 		w.Write(b)
 		w.WriteByte('\n')
 		w.Flush()
 	}
-	_ = os.Stdout
+}
+
+// captureStd replaces os.Stdout and os.Stderr by pipes; the returned function yields (and clears) what was written since the last call
+func captureStd() func() (string, string) {
+	var mu sync.Mutex
+	var bufs [2]bytes.Buffer
+	start := func(k int) *os.File {
+		r, wr, err := os.Pipe()
+		if err != nil {
+			return nil
+		}
+		go func() {
+			tmp := make([]byte, 4096)
+			for {
+				n, err := r.Read(tmp)
+				if n > 0 {
+					mu.Lock()
+					if bufs[k].Len() < 1<<16 {
+						bufs[k].Write(tmp[:n])
+					}
+					mu.Unlock()
+				}
+				if err != nil {
+					return
+				}
+			}
+		}()
+		return wr
+	}
+	if wr := start(0); wr != nil {
+		os.Stdout = wr
+	}
+	if wr := start(1); wr != nil {
+		os.Stderr = wr
+	}
+	return func() (string, string) {
+		time.Sleep(0)
+		mu.Lock()
+		defer mu.Unlock()
+		a, b := bufs[0].String(), bufs[1].String()
+		bufs[0].Reset()
+		bufs[1].Reset()
+		return a, b
+	}
 }
 
 var interferers = []string{
